@@ -1937,6 +1937,12 @@ func (g Gateway) Uint32SliceDelete(ctx context.Context, in *hydrapb.Uint32SliceD
 	// get the hydra interface
 	hydraInterface := g.ZeusInterface.GetHydra()
 
+	// a swamp that does not exist holds nothing: answer as for a missing key instead of summoning it
+	// (summoning materialised an empty swamp that then answered IsSwampExist = true)
+	if isExist, existErr := hydraInterface.IsExistSwamp(in.GetIslandID(), swampName); existErr != nil || !isExist {
+		return nil, nil
+	}
+
 	// summon the swamp
 	swampObj, err := hydraInterface.SummonSwamp(ctx, in.GetIslandID(), swampName)
 	if err != nil {
@@ -2022,6 +2028,12 @@ func (g Gateway) Uint32SliceSize(ctx context.Context, in *hydrapb.Uint32SliceSiz
 	// get the hydra interface
 	hydraInterface := g.ZeusInterface.GetHydra()
 
+	// a swamp that does not exist holds nothing: answer as for a missing key instead of summoning it
+	// (summoning materialised an empty swamp that then answered IsSwampExist = true)
+	if isExist, existErr := hydraInterface.IsExistSwamp(in.GetIslandID(), swampName); existErr != nil || !isExist {
+		return &hydrapb.Uint32SliceSizeResponse{Size: 0}, status.Error(codes.InvalidArgument, "the key does not exist: the swamp does not exist")
+	}
+
 	// summon the swamp
 	swampObj, err := hydraInterface.SummonSwamp(ctx, in.GetIslandID(), swampName)
 	if err != nil {
@@ -2066,6 +2078,12 @@ func (g Gateway) Uint32SliceIsValueExist(ctx context.Context, in *hydrapb.Uint32
 
 	// get the hydra interface
 	hydraInterface := g.ZeusInterface.GetHydra()
+
+	// a swamp that does not exist holds nothing: answer as for a missing key instead of summoning it
+	// (summoning materialised an empty swamp that then answered IsSwampExist = true)
+	if isExist, existErr := hydraInterface.IsExistSwamp(in.GetIslandID(), swampName); existErr != nil || !isExist {
+		return nil, status.Error(codes.InvalidArgument, "the key does not exist: the swamp does not exist")
+	}
 
 	// summon the swamp
 	swampObj, err := hydraInterface.SummonSwamp(ctx, in.GetIslandID(), swampName)
